@@ -5,6 +5,8 @@ import ReplayModel.Frame
 import ReplayModel.World
 import ReplayModel.Play
 import ReplayProofs.Lemmas.Bytes
+import ReplayModel.Pipeline
+import ReplayProofs.C01
 namespace ReplayModel.C02
 open ReplayModel
 
@@ -282,5 +284,55 @@ example : parsePackets ((⟨7, 0x3f800000, [1, 2, 3]⟩ : Raw).encode ++ (⟨0x9
     simp only [List.mem_cons, List.mem_nil_iff, or_false] at hr
     rcases hr with rfl | rfl <;> (unfold Raw.ok; simp))
   simpa [Raw.packet] using this
+
+/-! ### the top of the pipeline: `ReplayParser.get_info` (model: `ReplayModel/Pipeline.lean`) -/
+
+/-- the lenient packet loop never reports a raised packet -/
+theorem lenient_no_raise' (jsonOk : Bytes → Bool) (cfg : Config) (ps : List NetPacket) :
+    ∀ (w : World) (i : Nat) (failed : List (Nat × Err)),
+    (playPackets jsonOk cfg false w i ps failed).2.1 = none := by
+  induction ps with
+  | nil => intro w i failed; rfl
+  | cons np rest ih =>
+    intro w i failed
+    unfold playPackets
+    simp only
+    cases (stepNet jsonOk cfg w np).err with
+    | none => exact ih _ _ _
+    | some e => simp only [Bool.false_eq_true, if_false]; exact ih _ _ _
+
+/-- **From the file to the dialect, end to end.** A file written around a stream of encoded
+packets (any block cipher pair with `D ∘ E = id`, any compressor `inflate` inverts, any
+supported version) is read, un-chained, inflated, framed and played so that exactly those
+packets — same types, payload bytes and order, each once — are what the player folds over;
+the lenient result is returned with `hidden` present and no error. Composes `C01.read_write`,
+`frames_encode` and the play loop; nothing between the layers is lost or re-ordered. -/
+theorem getInfo_written (env : Env) (E : Bytes → Bytes) (ext : String) (game : GameId)
+    (engine : Bytes) (extra : List (Option Bytes)) (pre : Bytes) (blocks : List Bytes) (rs : List Raw)
+    (vs : String) (sel : Selection)
+    (hext : gameOfExt ext = some game)
+    (hD : ∀ b, b.length = 8 → env.D (E b) = b) (hE : ∀ b, b.length = 8 → (E b).length = 8)
+    (hinf : env.inflate blocks.flatten = some (rs.flatMap Raw.encode))
+    (heng : engine.length < 2 ^ 31) (hcount : extra.length + 1 < 2 ^ 31) (hx : ∀ b ∈ extra, C01.blockOK b)
+    (hpre : pre.length = 8) (h8 : ∀ b ∈ blocks, b.length = 8) (hrs : ∀ r ∈ rs, r.ok)
+    (hv : env.versionOf game engine = some vs) (hs : selectVersion env.bundled game vs = .ok sel) :
+    getInfo env false ext (writeContainer E engine extra pre blocks) =
+      .returns ⟨game, engine, extra, rs.flatMap Raw.encode⟩
+        (some { world := (playPackets env.jsonOk (configOf env game sel) false {} 0 (rs.map Raw.packet) []).1,
+                ending := .finished,
+                failed := (playPackets env.jsonOk (configOf env game sel) false {} 0 (rs.map Raw.packet) []).2.2 })
+        none := by
+  have hr := C01.read_write E env.D env.inflate ext game engine extra pre blocks _ hext hD hE hinf heng hcount hx hpre h8
+  unfold getInfo
+  simp only [hr, hv, hs]
+  have hplay : play env.jsonOk (configOf env game sel) false {} (rs.flatMap Raw.encode) =
+      { world := (playPackets env.jsonOk (configOf env game sel) false {} 0 (rs.map Raw.packet) []).1,
+        ending := .finished,
+        failed := (playPackets env.jsonOk (configOf env game sel) false {} 0 (rs.map Raw.packet) []).2.2 } := by
+    simp only [play, frames_encode rs hrs]
+    have : (playPackets env.jsonOk (configOf env game sel) false {} 0 (rs.map Raw.packet) []).2.1 = none :=
+      lenient_no_raise' _ _ _ _ _ _
+    simp only [this, endingOf]
+  rw [hplay]
 
 end ReplayModel.C02
